@@ -2,7 +2,7 @@
    Orderings = all event lists (Start, Tick, Exit c, PM c, Fin c) accepted by the controller model. *)
 From Coq Require Import List Bool Arith.
 Import ListNotations.
-Require Import V.Restart.Model V.Sched.Model V.Sched.Proofs V.Sched.Property V.Stage.Spec V.Stage.Proofs.
+Require Import V.Restart.Model V.Sched.Model V.Sched.Proofs V.Sched.Property V.Stage.Spec V.Stage.Proofs V.Stage.Progress.
 
 (* If no task exits unrecoverably by the rules (no component's rule-given state is failed) and the
    same-stage producers of repeating components simply finish, then in EVERY reachable state of EVERY
@@ -68,6 +68,23 @@ Proof.
   destruct (stage_end_all_final W s s' i I Hc Hrun Ht Hrun') as [_ [B C]]. split; [exact B|exact C].
 Qed.
 Print Assumptions C02_failure_reported.
+
+(* No ordering gets stuck: in every reachable state in which the stage loop is running and some component
+   of the stage is not yet recorded done, either some task exit or notification is deliverable, or the
+   next scheduler pass makes progress (it stages — launches or shuts down — a component that was not
+   staged).  Together with the fairness of timers / rx pools (assumed) the loop cannot wait forever. *)
+Theorem C02_progress : forall W outcome evs s i,
+  wf W -> run W true outcome state0 evs = Some s ->
+  cur s = Some i -> running s = true -> stage_done W s i = false ->
+  (exists ev, ev <> Tick /\ step W true outcome s ev <> None) \/
+  (exists c, staged (dy s c) = false /\ staged (dy (sched_pass W true s) c) = true).
+Proof.
+  intros W outcome evs s i WF Hr Hc Hrun Hnd.
+  destruct (run_ok W outcome evs state0 s Inv_state0 Hr) as [I _].
+  pose proof (run_P W outcome evs state0 s Inv_state0 (pinv_state0 W) Hr) as P.
+  exact (progress W outcome s i WF I P Hc Hrun Hnd).
+Qed.
+Print Assumptions C02_progress.
 
 (* non-vacuity: a 4-component workflow (two replicas feeding an aggregator, plus a consumer of it);
    replica 1 exits with a shutdownOn reason: rule-given states, hypotheses satisfied, and a complete
